@@ -150,7 +150,9 @@ class ActionContext(abc.ABC):
             # the text of the exception is data of the program (the key that is missing, a whole document that cannot
             # be parsed): it is held to the string limit like the values
             message = self.__error_text(e)[:max(self.collection_config.max_string_length, len(type(e).__name__))]
-            return WatchResult(source, watch, None, message), {}, message
+            # (with what has been recorded so far: the ids handed out for it are known to the identity cache, a later
+            # watch or log field that reaches the same values refers to these entries)
+            return WatchResult(source, watch, None, message), var_processor.var_lookup, message
 
     @staticmethod
     def __error_text(error: BaseException) -> str:
